@@ -971,6 +971,9 @@ func (e *Exec) convert(s *State, x *ssa.Convert) Val {
 		if e.checked {
 			e.obligeK("safety/overflow", "", nil, s, fmt.Sprintf("(and (<= %s %s) (<= %s %s))", lo, v, v, hi), "conversion to "+tb.Name()+" at "+e.posStr(token.NoPos))
 		}
+		if e.wrapping() {
+			return S("%s", wrapTerm(v, tb))
+		}
 		return S("%s", v)
 	}
 	if fs == ts && fs != "Float" {
@@ -1084,6 +1087,10 @@ func (e *Exec) binop(s *State, x *ssa.BinOp) Val {
 				e.obligeK("safety/overflow", "", nil, s, fmt.Sprintf("(and (<= %s %s) (<= %s %s))", lo, r, r, hi), bt.Name()+" "+op+" at "+e.posStr(token.NoPos))
 			}
 		}
+		if e.wrapping() && bt != nil && (x.Op == token.ADD || x.Op == token.SUB || x.Op == token.MUL) {
+			op := map[token.Token]string{token.ADD: "+", token.SUB: "-", token.MUL: "*"}[x.Op]
+			return S("%s", wrapTerm(fmt.Sprintf("(%s %s %s)", op, a, b), bt))
+		}
 		switch x.Op {
 		case token.ADD:
 			chk("+")
@@ -1188,4 +1195,21 @@ func sortedAllocs(m map[*ssa.Alloc]Val) []*ssa.Alloc {
 	}
 	sort.Slice(out, func(i, j int) bool { return out[i].Pos() < out[j].Pos() })
 	return out
+}
+
+// arith wrapping: the value of a fixed-width integer expression is its mathematical value reduced into the type's range
+func (e *Exec) wrapping() bool {
+	if len(e.frames) > 0 {
+		return e.con != nil && e.con.Wrapping // inlined callees run under the verified function's mode
+	}
+	return e.con != nil && e.con.Wrapping
+}
+
+func wrapTerm(v string, b *types.Basic) string {
+	lo, hi, ok := intRange(b)
+	if !ok {
+		return v
+	}
+	// ((v - lo) mod (hi - lo + 1)) + lo
+	return fmt.Sprintf("(+ (mod (- %s %s) (+ (- %s %s) 1)) %s)", v, lo, hi, lo, lo)
 }
